@@ -106,7 +106,9 @@ public:
     shared_future(Fn &&fn)
         :_ptr(std::make_shared<future_internal>()) {
         _ptr->result_of(std::forward<Fn>(fn));
-        if (_ptr->pending()) _ptr->resolve_tracer.charge(_ptr);
+        //(ready() is acquire operation - if the future has been resolved by other thread meanwhile,
+        //the result must be visible to everybody who receives the shared state from this thread)
+        if (!_ptr->ready()) _ptr->resolve_tracer.charge(_ptr);
     }
 
 
